@@ -156,7 +156,9 @@ def gen_params(draw, max_hosts=12, max_services=5, small=True):
         nsub = 3 + math.ceil((H - math.ceil(H / 40) - math.ceil(H / 41)) / 5)
         p["address_space_bounds"] = (nsub + draw(st.integers(0, 4)),
                                      5 + draw(st.integers(0, 4)))
-    p["seed"] = draw(st.integers(0, 2**31 - 1))
+    p["seed"] = draw(st.integers(0, 2**31 - 1)) if draw(st.integers(0, 9)) else draw(st.sampled_from([0, 1, 2**31, 2**32 - 1]))
+    if draw(st.integers(0, 7)) == 0:
+        p["name"] = draw(st.sampled_from(["my scenario", "tiny", "", "s-1"]))
     return p
 
 
@@ -220,6 +222,17 @@ def gen_params_near_capacity(draw):
         p["num_privescs"] = max(1, cp - draw(st.sampled_from([0, 0, 1, 2, cp // 10])))
     else:
         p.pop("num_privescs", None)
+    return p
+
+
+@st.composite
+def gen_params_many_probabilities(draw):
+    """probabilities SAMPLED by the generator (exploit_probs / privesc_probs None) for hundreds of definitions per
+    scenario: the open end of the interval (0, 1] is only visited by many draws"""
+    p = draw(gen_params_near_capacity())
+    S, O, P = draw(st.sampled_from([30, 50, 60])), draw(st.integers(3, 6)), draw(st.sampled_from([15, 30]))
+    p.update(num_services=S, num_os=O, num_processes=P, exploit_probs=None, privesc_probs=None,
+             num_exploits=S * (O + 1) - draw(st.integers(0, 9)), num_privescs=P * (O + 1) - draw(st.integers(0, 5)))
     return p
 
 
